@@ -405,7 +405,10 @@ def main():
   # histories in which a result is saved (also twice under one name, and after the recipe / policy has changed since)
   has_save = lambda h: any(a[0] == "save" for a in json.loads(h))
   save_keys = sorted(k for k in list(trans) + list(trans_deep) if has_save(k) and k not in keys and k not in keys_deep)
-  keys_save = common.sample_keep(save_keys, 200 if args.tier == "quick" else 6000, args.seed)
+  # a refused save (the name exists) must leave the folder as it was: those histories are all kept
+  refused_save = [k for k in save_keys if any(a[0] == "save" and a[-1] == "raise:exists" for a in json.loads(k))]
+  keys_save = refused_save[:300 if args.tier == "quick" else 10**6] + common.sample_keep([k for k in save_keys if k not in set(refused_save)],
+                                                                                     150 if args.tier == "quick" else 6000, args.seed)
   trans.update(trans_deep)
   keys = keys + keys_deep + keys_save
   items = [(trans[k], args.seed, ("bytearray", "bytes", "path", "bytes")[i % 4]) for i, k in enumerate(keys)]
